@@ -371,6 +371,14 @@ def core_specs(P: str = "U", variant: int = 0) -> list[CS]:
                 FS("extras", "child", f"tuple[{E}, ...]", "tuple", (E,), compare=False, default="()"),
             ),
         ),
+        # a node class that behaves like a collection of its elements (len / iter / in), and a class holding one as a single child
+        CS(
+            f"{P}Coll",
+            (E,),
+            F(FS("elems", "child", f"tuple[{E}, ...]", "tuple", (E,), default="()")),
+            body="    def __len__(self):\n        return len(self.elems)\n\n    def __iter__(self):\n        return iter(self.elems)\n\n    def __contains__(self, x):\n        return any(x is e for e in self.elems)\n",
+        ),
+        CS(f"{P}Hold", (E,), F(FS("blk", "child", f"{P}Coll", "one", (f"{P}Coll",)), FS("alt", "child", f"{P}Coll | None", "opt", (f"{P}Coll",), default="None"))),
         # same property names in the same order, another compare flag
         CS(f"{P}CmpA", (E,), F(FS("v", "prop", "int", "int", default="0"), FS("note", "prop", "str", "str", default='""'))),
         CS(f"{P}CmpB", (E,), F(FS("v", "prop", "int", "int", default="0"), FS("note", "prop", "str", "str", compare=False, default='""'))),
@@ -450,7 +458,8 @@ def warm_up(U: Universe, rng) -> list[str]:
         kw = {}
         for f in U.child_fields(cn):
             if f.shape == "one":
-                kw[f.name] = U.cls[f"{P}Leaf"]()
+                leaf_ok = any(U.is_sub(f"{P}Leaf", t) for t in f.types)
+                kw[f.name] = U.cls[f"{P}Leaf"]() if leaf_ok else U.cls[f.types[0]]()
             elif f.shape.startswith("fixed"):
                 kw[f.name] = tuple(U.cls[f"{P}Leaf"](v=i) for i in range(int(f.shape[5:])))
         n = U.cls[cn](**kw)
